@@ -71,6 +71,7 @@ def verify_functions(src, quals, tags=None, interface_factory=None, timeout=30, 
                 if tags is not None and ob.tags and not (set(ob.tags) & set(tags)):
                     continue
                 r = ObligationResult(ob, qual, model)
+                r.renamed = getattr(vr, 'renamed', False)
                 if ob.kind.endswith(':trivial') or (ob.goal.op == 'bool' and ob.goal.args[0]):
                     r.trivial = True
                     results.append(r)
